@@ -45,10 +45,11 @@ def extractUrlref (s : Str) : Option ElRef :=
   | some r => (stripSuffix [')'] r).map ElRef.id
   | none => none
 
-/-- `get_element_bbox` -/
-def bboxOf (c : Ctx) : Nat → Elem → Except Err (Option BoundingBox)
-  | 0, _ => .error .other
-  | fuel + 1, e => do
+/-- `get_element_bbox`; `seen` = the clip paths being followed (a clipPath may itself be clipped; a
+    cycle is an error). With the cycle check the recursion depth is bounded by the number of ids. -/
+def bboxOf (c : Ctx) : Nat → List ElRef → Elem → Except Err (Option BoundingBox)
+  | 0, _, _ => .error .circular
+  | fuel + 1, seen, e => do
     let t ← c.target (c.elems.length + 1) e
     let b ← t.bbox
     let b ← (if e.name == cs!"use" || e.name == cs!"reuse" then
@@ -65,20 +66,20 @@ def bboxOf (c : Ctx) : Nat → Elem → Except Err (Option BoundingBox)
       match extractUrlref cp with
       | none => .error .invalidData
       | some r =>
-        match c.get r with
-        | none => .error .reference
-        | some ce =>
-          if ce.name == cs!"clipPath" then do
-            let cb ← bboxOf c fuel ce
-            match cb with
-            | some cb => pure (bb.intersect cb)
-            | none => pure (some bb)
-          else pure (some bb)
+        if seen.contains r then .error .circular
+        else
+          match c.get r with
+          | none => .error .reference
+          | some ce =>
+            if ce.name == cs!"clipPath" then do
+              let cb ← bboxOf c fuel (r :: seen) ce
+              match cb with
+              | some cb => pure (bb.intersect cb)
+              | none => pure (some bb)
+            else pure (some bb)
     | _, _ => pure b
 
-def bboxFuel : Nat := 6
-
-def bb (c : Ctx) (e : Elem) : Except Err (Option BoundingBox) := bboxOf c bboxFuel e
+def bb (c : Ctx) (e : Elem) : Except Err (Option BoundingBox) := bboxOf c (c.elems.length + 2) [] e
 
 end Ctx
 
